@@ -535,6 +535,11 @@ func augmentProps(eng *Engine, path string) {
 			if !hasProp(pkgProps[d], p.ID) {
 				pkgProps[d] = append(pkgProps[d], p.ID)
 			}
+			// the root package builds every stat through the wrappers of package types (mode
+			// predicates, codec entry points): a property anchored in the root package runs them too
+			if d == "." && !hasProp(pkgProps["types"], p.ID) {
+				pkgProps["types"] = append(pkgProps["types"], p.ID)
+			}
 		}
 	}
 	for _, key := range eng.cs.Order {
